@@ -1,6 +1,8 @@
 CONSTANTS Deep = TRUE
+          Walk = "unfold"
           Size = "std"
 INIT Init
 NEXT Next
 INVARIANT ResultIsMerge
 INVARIANT OperandsIntact
+INVARIANT UnfoldedLaws
